@@ -135,13 +135,13 @@ func c08Geoms(c *fw.Ctx, idx int) {
 	var g *model.G
 	if r.Chance(1, 3) {
 		g = gen.Collection(r, gen.SmallInt, gen.CollOpts{
-			Shape:   gen.ShapeOpts{CoordFn: c08NoNaN},
+			Shape:   gen.ShapeOpts{CoordFn: c08NoNaN, Valid: r.Bool()},
 			Layouts: gen.StdLayouts, MixLayouts: r.Bool(), MaxDepth: 4, MaxMembers: 4, FixedChance: 30, WithRings: true,
 		}, 0)
 	} else {
 		kind := gen.Kinds7[r.Intn(len(gen.Kinds7))]
 		layout := gen.PickLayout(r, c01Layouts)
-		g = gen.Shape(r, kind, layout, gen.SmallInt, gen.ShapeOpts{CoordFn: c08NoNaN, Big: true, Huge: true})
+		g = gen.Shape(r, kind, layout, gen.SmallInt, gen.ShapeOpts{CoordFn: c08NoNaN, Big: true, Huge: true, Valid: r.Chance(1, 3)})
 	}
 	c.SetInput(map[string]any{"geometry": g.String()})
 	t := g.BuildFlat()
@@ -266,7 +266,7 @@ func c08Extend(c *fw.Ctx, idx int) {
 			l = []geom.Layout{geom.XY, geom.XYZ, geom.XYZM, geom.Layout(5), geom.Layout(6), geom.Layout(9)}[r.Intn(6)]
 		}
 		kind := gen.Kinds7[r.Intn(len(gen.Kinds7))]
-		gs[i] = gen.Shape(r, kind, l, gen.SmallInt, gen.ShapeOpts{CoordFn: c08NoNaN})
+		gs[i] = gen.Shape(r, kind, l, gen.SmallInt, gen.ShapeOpts{CoordFn: c08NoNaN, Valid: r.Bool()}) // Valid: rings closed bit for bit
 		desc = append(desc, gs[i].String())
 		want = joinLayout(want, l)
 		sb.addModel(gs[i])
@@ -398,6 +398,35 @@ func c08Extend(c *fw.Ctx, idx int) {
 		}
 		c.Count("extend_from_a_box_made_by_" + how)
 		if !c08Compare(c, fmt.Sprintf("box of geometry %d made by %s, extended in order %v", ord[0], how, ord[1:]), b, want2, sb, anyc) {
+			return
+		}
+	}
+	// a two-dimensional box given a third dimension by Set (its documentation allows
+	// more values than the layout has dimensions), then extended by an XYZ and by an
+	// XYM geometry, in that order: the third dimension is Z from the moment an XYZ
+	// geometry arrives, and M gets a dimension of its own
+	if r.Chance(1, 4) {
+		lo := []float64{float64(r.Range(-9, 0)), float64(r.Range(-9, 0)), float64(r.Range(-9, 0))}
+		hi := []float64{float64(r.Range(0, 9)), float64(r.Range(0, 9)), float64(r.Range(0, 9))}
+		gz := gen.Shape(r, gen.Kinds7[r.Intn(len(gen.Kinds7))], geom.XYZ, gen.SmallInt, gen.ShapeOpts{CoordFn: c08NoNaN})
+		gm := gen.Shape(r, gen.Kinds7[r.Intn(len(gen.Kinds7))], geom.XYM, gen.SmallInt, gen.ShapeOpts{CoordFn: c08NoNaN})
+		rest := gen.Shape(r, gen.Kinds7[r.Intn(len(gen.Kinds7))], gen.StdLayouts[r.Intn(4)], gen.SmallInt, gen.ShapeOpts{CoordFn: c08NoNaN})
+		sb3 := newSemBox(104)
+		sb3.add(geom.XYZ, lo)
+		sb3.add(geom.XYZ, hi)
+		sb3.addModel(gz)
+		sb3.addModel(gm)
+		sb3.addModel(rest)
+		c.SetInput(map[string]any{"start": fmt.Sprintf("NewBounds(XY).Set(%v, %v)", lo, hi), "then_Extend": gz.String() + " | " + gm.String() + " | " + rest.String()})
+		var b *geom.Bounds
+		if c.Guard("panic", func() {
+			b = geom.NewBounds(geom.XY).Set(append(append([]float64{}, lo...), hi...)...)
+			b = b.Extend(gz.BuildFlat()).Extend(gm.BuildFlat()).Extend(rest.BuildFlat())
+		}) {
+			return
+		}
+		c.Count("extend_from_a_box_given_more_dimensions_than_its_layout_by_Set")
+		if !c08Compare(c, "XY box given three dimensions by Set, extended by an XYZ, an XYM and one more geometry", b, geom.XYZM, sb3, true) {
 			return
 		}
 	}
